@@ -30,6 +30,7 @@ const (
 	rlProgressStop
 	rlCleanup0
 	rlCleanup1
+	rlTotals
 )
 
 var rlLog []int
@@ -41,6 +42,13 @@ func rlProgressStopFn(_ *raterun.Runner)                     { rlLog = append(rl
 func rlRecordSetup(_ *metrics.Metrics, _ string, result metrics.ResultType, _ int64) {
 	rlLog = append(rlLog, rlSetupSample)
 	rlSetupSampleFailed = result == metrics.FailedResult
+}
+
+func rlGetTotals(r *Result) {
+	rlLog = append(rlLog, rlTotals)
+	r.mu.Lock()
+	defer r.mu.Unlock()
+	r.snapshot = r.progressStats.Total()
 }
 
 // stand-in for Run.run: the triggering phase as one opaque interval (its inside is C05/C02/C04)
@@ -83,6 +91,7 @@ func rlCount(ev int) int {
 //verif:replace (*$M/internal/raterun.Runner).Start rlProgressStartFn
 //verif:replace (*$M/internal/raterun.Runner).Stop rlProgressStopFn
 //verif:replace (*$M/internal/run.Run).run rlRunFn
+//verif:replace (*$M/internal/run.Result).GetTotals rlGetTotals
 //verif:go ignore
 //verif:noreplay metrics, progress reporter and triggering phase are replaced by ghost stand-ins
 //verif:unroll 40
@@ -96,10 +105,25 @@ func VerifC06_RunLifecycle() { rlLifecycle() }
 //verif:replace (*$M/internal/raterun.Runner).Start rlProgressStartFn
 //verif:replace (*$M/internal/raterun.Runner).Stop rlProgressStopFn
 //verif:replace (*$M/internal/run.Run).run rlRunFn
+//verif:replace (*$M/internal/run.Result).GetTotals rlGetTotals
 //verif:go ignore
 //verif:noreplay metrics, progress reporter and triggering phase are replaced by ghost stand-ins
 //verif:unroll 40
 func VerifC16_RunMetrics() { rlLifecycle() }
+
+// VerifC05_ShutdownOrder: the same harness under C05: the progress reporter is stopped after the triggering phase
+// and before the final totals are taken; setup cleanups and the summary come after that.
+//
+//verif:replace (*$M/internal/metrics.Metrics).Reset rlMetricsResetFn
+//verif:replace (*$M/internal/metrics.Metrics).RecordSetupResult rlRecordSetup
+//verif:replace (*$M/internal/raterun.Runner).Start rlProgressStartFn
+//verif:replace (*$M/internal/raterun.Runner).Stop rlProgressStopFn
+//verif:replace (*$M/internal/run.Run).run rlRunFn
+//verif:replace (*$M/internal/run.Result).GetTotals rlGetTotals
+//verif:go ignore
+//verif:noreplay metrics, progress reporter and triggering phase are replaced by ghost stand-ins
+//verif:unroll 40
+func VerifC05_ShutdownOrder() { rlLifecycle() }
 
 func rlLifecycle() {
 	rlLog = nil
@@ -170,6 +194,7 @@ func rlLifecycle() {
 		zz.Assert("C06.run.triggering_once_after_setup", rlCount(rlRunEnter) == 1 && rlIndex(rlRunEnter) > rlIndex(rlSetupEnd))
 		zz.Assert("C05.run.progress_started_before_stopped_after", rlIndex(rlProgressStart) < rlIndex(rlRunEnter) &&
 			rlIndex(rlProgressStop) > rlIndex(rlRunExit) && rlCount(rlProgressStop) == 1)
+		zz.Assert("C05.run.totals_taken_once_after_progress_stopped", rlCount(rlTotals) == 1 && rlIndex(rlTotals) > rlIndex(rlProgressStop))
 	}
 	// cleanups: exactly once each, reverse order, after the triggering phase, before Do returned (they are in the log)
 	for i := 0; i < ncl; i++ {
